@@ -310,18 +310,11 @@ theorem C10_2_no_unifier :
   · rw [← C10_unifyOC_fails_iff]
     simp [unifyOC, unify, solve, Term.vars, Term.varsL]
 
-/-- the answer of the pinned implementation, `V1 ↦ [a|G0]`, is not a unifier of the two terms
-    (whatever `G0` stands for): a success must make the terms identical. -/
-theorem C10_2_pinned_answer_not_unifier (θ : String → Term)
-    (h : θ "V1" = .str "." [.atom "a", θ "G0"]) :
-    ¬Unifier θ (.str "h" [.var "V1"]) (.str "h" [.str "." [.atom "a", .var "V1"]]) := by
-  intro hu
-  have hs : (θ "G0").size < (θ "V1").size := by
-    rw [h]; simp [Term.size, Term.sizeL]; omega
-  simp [Unifier, Term.subst, Term.substL] at hu
-  rw [h] at hu
-  simp at hu
-  rw [hu] at hs
-  exact absurd hs (by simp [h])
+/-- the answer of the pinned implementation, `V1 ↦ [a|_G0]`, is not a unifier of the two terms:
+    it turns them into `h([a|_G0])` and `h([a,a|_G0])`; a success must make the terms identical. -/
+theorem C10_2_pinned_answer_not_unifier :
+    ¬Unifier (fun x => if x = "V1" then .str "." [.atom "a", .var "_G0"] else .var x)
+      (.str "h" [.var "V1"]) (.str "h" [.str "." [.atom "a", .var "V1"]]) := by
+  simp [Unifier, Term.subst, Term.substL]
 
 end Scryer.C10
